@@ -30,7 +30,7 @@ from .core import Abort, HarnessError, SymFP, SymInt, SymReal, rv
 ROOT = os.path.dirname(os.path.dirname(os.path.abspath(__file__)))
 EXIT_OK, EXIT_VIOLATION, EXIT_INCONCLUSIVE, EXIT_HARNESS = 0, 1, 2, 3
 ROBUST_FACTORS = [10**6, 10**3, 10]
-ITEM_BUDGET_S = 150  # wall-clock budget of one configuration (all its paths, obligations and replays)
+ITEM_BUDGET_S = 60  # wall-clock budget of one configuration (all its paths, obligations and replays)
 OBLIG_TIMEOUT_MS = int(os.environ.get("VERIF_OBLIG_TIMEOUT_MS", "20000"))
 XCHECK_RATE = float(os.environ.get("VERIF_XCHECK_RATE", "0.02"))  # thorough tier: share of solver-discharged obligations re-decided by cvc5
 XCHECK_CAP = int(os.environ.get("VERIF_XCHECK_CAP", "60"))  # per worker chunk
@@ -596,6 +596,9 @@ def _worker(args):
         raise HarnessError("time budget of one configuration exceeded (the code under test does not terminate on this input?)")
 
     budget = getattr(mod, "ITEM_BUDGET_S", ITEM_BUDGET_S)
+    from . import core as _core
+
+    _core.ITEM_SECONDS = budget * 0.6  # the engine gives up (Abort -> inconclusive) before the hard wall-clock budget does
     try:
         signal.signal(signal.SIGALRM, _alarm)
     except (ValueError, AttributeError):  # not in the main thread of the worker: no budget
@@ -603,7 +606,7 @@ def _worker(args):
     for cfg in chunk:
         try:
             if budget:
-                signal.setitimer(signal.ITIMER_REAL, budget)
+                signal.setitimer(signal.ITIMER_REAL, budget, 2.0)  # (repeating: library code with a bare 'except:' may swallow the first one)
             try:
                 process_item(mod, cfg, st, rng, tier)
             finally:
@@ -613,7 +616,7 @@ def _worker(args):
             # (the concrete fallback gets its own budget: a run that does not terminate on plain floats either is reported as such)
             try:
                 if budget:
-                    signal.setitimer(signal.ITIMER_REAL, max(30, budget // 3))
+                    signal.setitimer(signal.ITIMER_REAL, max(15, budget // 3), 2.0)
                 ok = concrete_fallback(mod, cfg, st, str(e))
             except HarnessError as e2:
                 ok = False
